@@ -71,6 +71,14 @@ def item_name(item):
 def pmap(fn, items, jobs, init=None, initargs=(), seed=0, chunksize=1, progress=None):
     """run fn(item) -> dict over items on a process pool (fork); order of work is permuted by seed only"""
     items = list(items)
+    if progress is None and os.environ.get('VERIF_PROGRESS'):
+        t0 = time.time()
+        done = [0]
+
+        def progress(r):
+            done[0] += 1
+            if r.get('wall_s', 0) > float(os.environ['VERIF_PROGRESS']):
+                print('[%6.1fs %d/%d] %s %.1fs paths=%s' % (time.time() - t0, done[0], len(items), r.get('item'), r.get('wall_s', 0), r.get('paths')), file=sys.stderr, flush=True)
     if seed:
         import random
         random.Random(seed).shuffle(items)
@@ -148,10 +156,12 @@ class Report:
         """replay each candidate violation on the unpatched code; split into confirmed / not reproducing"""
         confirmed, ghosts = [], []
         seen = set()
-        for v in sorted(self.violations, key=lambda v: v['key']):
+        knownkeys = {k.get('key') for k in known_findings(self.prop)}
+        nnew = 0
+        for v in sorted(self.violations, key=lambda v: (v['key'] not in knownkeys, v['key'])):
             if v['key'] in seen:
                 continue
-            if len(confirmed) >= 5 or len(seen) >= 25:
+            if v['key'] not in knownkeys and (nnew >= 5 or len(seen) >= 25 + len(knownkeys)):
                 # enough to report; the remaining candidates are listed in the evidence as not replayed
                 self.notes.append('candidate not replayed (cap reached): ' + v['text'])
                 continue
@@ -162,12 +172,18 @@ class Report:
                 ok, detail = False, 'replay raised %s: %s' % (type(e).__name__, e)
             v['replay_detail'] = detail
             (confirmed if ok else ghosts).append(v)
+            if ok and v['key'] not in knownkeys:
+                nnew += 1
         return confirmed, ghosts
 
     def finish(self, replay_fn=None, replay_in_subprocess=None):
         prop = self.prop
         os.makedirs(REPLAY_DIR, exist_ok=True)
         confirmed, ghosts = [], []
+        if os.environ.get('VERIF_LIST'):
+            for t in sorted({v['key'] + ' | ' + v['text'] for v in self.violations}):
+                print('CANDIDATE ' + t)
+            return 3
         if self.violations:
             if replay_in_subprocess:
                 confirmed, ghosts = self.triage(lambda case: subprocess_replay(replay_in_subprocess, case))
